@@ -85,7 +85,7 @@ def corpus(name, extra_env=None):
         tmp = path + ".tmp%d" % os.getpid()
         env = {"CORPUS": name, "OUT": tmp}
         env.update(extra_env or {})
-        rc, out = tlc("GenCorpus", env=env, timeout=3000, xmx="6g", tag="gen-" + name)
+        rc, out = tlc("GenCorpus", env=env, timeout=3000, xmx="6g", tag="gen-%s-%d" % (name, os.getpid()))
         if rc != 0 or not os.path.exists(tmp):
             raise Infra("corpus generation failed for %s:\n%s" % (name, out[-3000:]))
         os.replace(tmp, path)
